@@ -264,6 +264,13 @@ func evaluateNoUnionInstanceMethod(
 		}
 
 		if err != nil {
+			// the value left behind by a rejected call is a copy as well: what
+			// follows on the line may assign through it, and a configured
+			// method is a shared table entry
+			if methodT.IsBuiltinMethod() || methodT.DefinedFrame != "" {
+				methodT = methodT.DeepCopy()
+			}
+
 			m.parser.SetLastEvaluatedT(
 				calculateExecutionType(m, methodT, evaluatedArgs),
 			)
